@@ -321,6 +321,43 @@ static void dom_edge(int r, int nper, int close, U64Vec *out) {
     uv_free(&s);
 }
 
+// MERID(r): the cells where the meridian through each of the 20 face centres (due north / due south of the centre: azimuth exactly 0 or
+// pi in the face's polar coordinates) leaves its face, with `close` rings around them. Found by bisection on "nearest face centre".
+static void dom_merid(int r, int close, U64Vec *out) {
+    Icosa ic;
+    if (dom_icosa(&ic)) return;
+    for (int f = 0; f < 20; f++) {
+        LatLng c = dll(ic.facec[f]);
+        for (int dir = -1; dir <= 1; dir += 2) {
+            double lo = 0, hi = 0.75;  // the inscribed radius of a face is 0.65 rad, the circumscribed one 1.11 rad
+            if (fabs(c.lat + dir * hi) > M_PI / 2) continue;  // the meridian runs over a pole first: skip
+            int changed = 0;
+            for (int it = 0; it < 60; it++) {
+                double mid = (lo + hi) / 2;
+                LatLng p = {c.lat + dir * mid, c.lng};
+                DV3 v = dv3(p);
+                int best = 0;
+                for (int g = 1; g < 20; g++)
+                    if (ddot(v, ic.facec[g]) > ddot(v, ic.facec[best])) best = g;
+                if (best == f)
+                    lo = mid;
+                else
+                    hi = mid, changed = 1;
+            }
+            if (!changed) continue;
+            U64Vec s = {0};
+            for (int side = 0; side < 2; side++) {
+                LatLng p = {c.lat + dir * (side ? hi + 1e-12 : lo - 1e-12), c.lng};
+                uint64_t h;
+                if (!latLngToCell(&p, r, &h)) uv_push(&s, h);
+            }
+            uv_sortuniq(&s);
+            for (int k = 0; k < close; k++) dom_close1(&s);
+            for (size_t i = 0; i < s.n; i++) uv_push(out, s.v[i]);
+            uv_free(&s);
+        }
+    }
+}
 // ---- IDX: hostile index alphabet. size 0 = small (~7k values), 1 = large
 // large: 1 = large, 0 = small, -1 = tiny (no two-bit flips)
 static void dom_idx_bases(int large, U64Vec *b) {
